@@ -544,7 +544,9 @@ def make_thread(E):
 POOL_HAVOC = ['self.ctxt.connections', 'self.ctxt.temp_connections', 'ghost.life', 'ghost.alloc',
               'field:ServerClientConnection.status', 'field:ServerClientConnection.incoming_messages',
               'field:ServerClientConnection.token', 'field:ServerClientConnection.addr']
-THREAD_HAVOC = ['self.queue', 'self.ctxt._active', 'self.perf', 'self.perf_data', 'self.frame_rate', 'self.received_count', 'self.spt']
+# (the context's settings may be changed at any time - by a handler or by the application's thread: C12 'configured before or after')
+THREAD_HAVOC = ['self.queue', 'self.ctxt._active', 'self.perf', 'self.perf_data', 'self.frame_rate', 'self.received_count', 'self.spt',
+                'self.ctxt.connection_timeout', 'self.ctxt.temp_connection_timeout', 'self.ctxt.keep_alive_interval', 'self.ctxt.outgoing_timeout']
 
 
 def perf_kind(ip, v, name):
